@@ -46,7 +46,9 @@ RULE = ("one case = one generated device class tree (0..3 embedded devices, nest
         "custom-header options on/off) + an operation sequence of M-SEARCH deliveries "
         "(ssdp:all, rootdevice, every UDN, every device/service type at versions 0..5, foreign and malformed targets, "
         "random letter case; MX absent / 0..10 / negative / non-numeric; jitter choice min / max / random; delivered as a "
-        "datagram through SsdpProtocol or directly to _on_data), clock advances, announcer start and stop; every emitted "
+        "datagram through SsdpProtocol or directly to _on_data; several searches from one requester socket, also while "
+        "answers to it are pending), clock advances, announcer start and stop (async_start/async_stop, or the whole SSDP "
+        "side through UpnpServer), observation up to 1850 s; every emitted "
         "datagram is compared byte for byte and fed to a real SsdpListener. non-trivial = at least one datagram was "
         "emitted; distinct = distinct canonical driver text")
 EXHAUSTIVE = {"quick": False, "thorough": False}
@@ -259,6 +261,13 @@ def st_class(st: Optional[str], device, answered: bool) -> str:
     return "foreign"
 
 
+def st_of(data: bytes) -> str:
+    for ln in data.decode("latin-1").split("\r\n")[1:]:
+        if ln[:3].upper() == "ST:":
+            return ln[3:].lower()
+    return ""
+
+
 def mx_class(mx: Optional[str]) -> str:
     if mx is None:
         return "absent"
@@ -295,19 +304,88 @@ def run_recipe(ctx: Ctx, recipe: Dict[str, Any], cid: str) -> Case:
     lines: List[str] = []
     state: Dict[str, Any] = {}
 
+    via_server = bool(recipe.get("via_server", False))
+
     async def main(loop) -> None:
-        saved = (server.time, server.randrange)
+        saved = (server.time, server.randrange, server.get_ssdp_socket)
         server.time = _FakeTime
+        ms = lambda: int(round(loop.time() * 1000))  # noqa: E731
         rr_calls: List[Tuple[int, int]] = []
-        rr_sel: List[Any] = [None]
+        cur: Dict[str, Any] = {"sel": None, "addr": None, "eff": None}
+        pending: Dict[Any, set] = {}          # requester -> due times (ms) of its scheduled answers
 
         def fake_randrange(lo, hi=None):
             rr_calls.append((lo, hi))
             if hi is None or hi <= lo:
                 return random.Random(0).randrange(lo, hi)  # raises what the real one raises
-            return hi - 1 if rr_sel[0] == "max" else lo + int(rr_sel[0]) % (hi - lo)
+            j = hi - 1 if cur["sel"] == "max" else lo + int(cur["sel"]) % (hi - lo)
+            # two answers to one requester falling due at the same instant would fire in an order that is
+            # not defined (timer heap); move this one by a millisecond (the model gets the effective choice)
+            dues = pending.setdefault(cur["addr"], set())
+            for _ in range(hi - lo):
+                if ms() + j not in dues:
+                    break
+                j = j + 1 if j + 1 < hi else lo
+            dues.add(ms() + j)
+            cur["eff"] = j - lo
+            return j
 
         server.randrange = fake_randrange
+
+        # ---- no sockets: get_ssdp_socket / create_datagram_endpoint are replaced, everything else is the real code
+        sent: List[Tuple[int, Any, bytes]] = []                # datagrams written with socket.sendto (response socket)
+        tr_sent: List[Tuple[int, Any, bytes, Any]] = []        # datagrams written with transport.sendto (announcer)
+
+        class RecSock:
+            family = 2
+
+            def sendto(self, data, addr):
+                sent.append((ms(), addr, bytes(data)))
+                return len(data)
+
+            def bind(self, _addr):
+                pass
+
+            def getsockname(self):
+                return SERVER_ADDR
+
+            def setblocking(self, _flag):
+                pass
+
+            def close(self):
+                pass
+
+        class EndpointTransport:
+            def __init__(self, sock):
+                self.sock, self.proto, self.closed = sock, None, False
+
+            def sendto(self, data, addr=None):
+                tr_sent.append((ms(), addr, bytes(data), self))
+
+            def get_protocol(self):
+                return self.proto
+
+            def get_extra_info(self, name, default=None):
+                return self.sock if name == "socket" else SERVER_ADDR if name == "sockname" else default
+
+            def close(self):
+                self.closed = True
+
+            def is_closing(self):
+                return self.closed
+
+        def fake_get_ssdp_socket(source, target):
+            return RecSock(), source, target
+
+        async def fake_endpoint(protocol_factory, sock=None, **_kw):
+            tr = EndpointTransport(sock)
+            tr.proto = protocol_factory()
+            tr.proto.connection_made(tr)
+            return tr, tr.proto
+
+        server.get_ssdp_socket = fake_get_ssdp_socket
+        loop.create_datagram_endpoint = fake_endpoint  # type: ignore[method-assign]
+
         responder_options: Optional[Dict[str, Any]] = None
         announcer_options: Optional[Dict[str, Any]] = None
         if always_root or custom:
@@ -321,8 +399,24 @@ def run_recipe(ctx: Ctx, recipe: Dict[str, Any], cid: str) -> Case:
                 tags.add("option:custom-headers")
         try:
             root_cls = make_classes(tree, url)
-            device = root_cls(server.NopRequester(), base, boot, config)
-            lines.append("cfg " + " ".join([tok_str(base), tok_str(url), tok_str(server.HEADER_SERVER),
+            ann: Dict[str, Any] = {}
+            srv = None
+            if via_server:
+                # the whole SSDP side through UpnpServer._async_start_ssdp / _async_stop_ssdp
+                port = int(base.rsplit(":", 1)[1]) if base.count(":") == 2 and base.rsplit(":", 1)[1].isdigit() else 8000
+                srv = server.UpnpServer(root_cls, source=(SERVER_ADDR[0], 0), target=TARGET, http_port=port,
+                                        boot_id=boot, config_id=config,
+                                        options={server.SSDP_SEARCH_RESPONDER_OPTIONS: responder_options,
+                                                 server.SSDP_ADVERTISEMENT_ANNOUNCER_OPTIONS: announcer_options})
+                srv._create_device()
+                device = srv._device
+                base_uri = srv.base_uri
+                tags.add("start:UpnpServer")
+            else:
+                device = root_cls(server.NopRequester(), base, boot, config)
+                base_uri = base
+                tags.add("start:async_start")
+            lines.append("cfg " + " ".join([tok_str(base_uri), tok_str(url), tok_str(server.HEADER_SERVER),
                                             tok_str("Thu, 01 Jan 1970 00:00:00 GMT"), tok_str(str(boot)),
                                             tok_str(str(config)), tok_str(f"{TARGET[0]}:{TARGET[1]}"), addr_tok(TARGET),
                                             "1" if always_root else "0"]))
@@ -330,22 +424,18 @@ def run_recipe(ctx: Ctx, recipe: Dict[str, Any], cid: str) -> Case:
             lines.extend(dev_lines(device))
             tags.update(tree_tags(device))
 
-            ms = lambda: int(round(loop.time() * 1000))  # noqa: E731
-            sent: List[Tuple[int, Any, bytes]] = []
-
-            class RespSock:
-                def sendto(self, data, addr):
-                    sent.append((ms(), addr, bytes(data)))
-                    return len(data)
-
-            responder = server.SsdpSearchResponder(device, source=(SERVER_ADDR[0], 0), target=TARGET,
-                                                   options=responder_options)
-            responder._response_socket = RespSock()  # type: ignore[assignment]
-            rproto = SsdpProtocol(loop, on_connect=responder._on_connect, on_data=responder._on_data)
-            rproto.connection_made(FakeTransport(SERVER_ADDR))
+            if via_server:
+                ann["start"] = ms()
+                await srv._async_start_ssdp()
+                responder = srv._search_responder
+                ann["announcer"] = srv._advertisement_announcer
+            else:
+                responder = server.SsdpSearchResponder(device, source=(SERVER_ADDR[0], 0), target=TARGET,
+                                                       options=responder_options)
+                await responder.async_start()            # public entry point
+            rproto = responder._transport.get_protocol()
 
             searches: List[Dict[str, Any]] = []
-            ann: Dict[str, Any] = {}
 
             async def advance(delta_ms: int) -> None:
                 await asyncio.sleep(delta_ms / 1000)
@@ -361,11 +451,16 @@ def run_recipe(ctx: Ctx, recipe: Dict[str, Any], cid: str) -> Case:
                 elif name == "search":
                     s = dict(op[1])
                     sid = len(searches)
-                    port = 10000 + sid
-                    addr = (REQ_HOST, port)
                     line, man, st, mx = s.get("line", M_SEARCH), s.get("man", DISCOVER), s.get("st"), s.get("mx")
+                    is_msearch = line == M_SEARCH and man == DISCOVER
+                    # several searches may come from one requester; anything that is not an M-SEARCH gets its own
+                    port = 10000 + int(s.get("req", sid)) % 1000 if is_msearch else 20000 + sid
+                    addr = (REQ_HOST, port)
+                    # an answer of this requester falling due right now: let it fire first (order would be undefined)
+                    while ms() in pending.get(addr, ()):
+                        await advance(1)
                     sel = s.get("sel", "max")
-                    rr_sel[0] = sel
+                    cur.update(sel=sel, addr=addr, eff=None)
                     n0 = len(rr_calls)
                     rec = {"id": sid, "time": ms(), "addr": addr, "line": line, "man": man, "st": st, "mx": mx,
                            "sel": sel, "raise": None}
@@ -396,6 +491,12 @@ def run_recipe(ctx: Ctx, recipe: Dict[str, Any], cid: str) -> Case:
                         rec["raise"] = exc_token(e)
                         tags.add(f"raise:{rec['raise']}")
                     rec["rr"] = rr_calls[n0:]
+                    if cur["eff"] is not None:
+                        rec["sel"] = cur["eff"]
+                    if any(o["addr"] == addr for o in searches):
+                        tags.add("requester:reused")
+                        if any(t >= ms() for t in pending.get(addr, ())) and len(pending.get(addr, ())) > (1 if rec["rr"] else 0):
+                            tags.add("requester:reused-while-answer-pending")
                     searches.append(rec)
                     tags.add("op:search")
                 elif name == "astart":
@@ -403,24 +504,19 @@ def run_recipe(ctx: Ctx, recipe: Dict[str, Any], cid: str) -> Case:
                         continue
                     announcer = server.SsdpAdvertisementAnnouncer(device, source=(SERVER_ADDR[0], 0), target=TARGET,
                                                                   options=announcer_options, loop=loop)
-                    atr = FakeTransport(SERVER_ADDR)
-                    alog: List[Tuple[int, Any, bytes]] = []
-                    atr.sendto = lambda data, a=None: alog.append((ms(), a, bytes(data)))  # type: ignore[method-assign]
-                    aproto = SsdpProtocol(loop, on_connect=announcer._on_connect)
-                    atr.get_protocol = lambda: aproto  # type: ignore[attr-defined]
-                    aproto.connection_made(atr)
-                    ann.update(start=ms(), announcer=announcer, log=alog, transport=atr)
-                    announcer._announce_next()
+                    ann.update(start=ms(), announcer=announcer)
+                    await announcer.async_start()         # public entry point (first announcement included)
                     tags.add("op:astart")
                 elif name == "astop":
                     if "start" not in ann or "stop" in ann:
                         continue
                     if off_tick():
                         await advance(7)
-                    n_alive = len(ann["log"])
                     ann["stop"] = ms()
-                    await ann["announcer"].async_stop()
-                    ann["n_alive"] = n_alive
+                    if via_server:
+                        await srv._async_stop_ssdp()
+                    else:
+                        await ann["announcer"].async_stop()
                     tags.add("op:astop")
                 else:
                     raise ValueError(name)
@@ -431,15 +527,7 @@ def run_recipe(ctx: Ctx, recipe: Dict[str, Any], cid: str) -> Case:
             await advance(int(recipe.get("tail", 0)))
             state["end"] = ms()
 
-            # ---- report, grouped
-            by_port: Dict[int, List[Tuple[int, Any, bytes]]] = {}
-            stray: List[Tuple[int, Any, bytes]] = []
-            for t, addr, data in sent:
-                port = addr[1] if isinstance(addr, tuple) and len(addr) >= 2 and addr[0] == REQ_HOST else None
-                if isinstance(port, int) and 10000 <= port < 10000 + len(searches):
-                    by_port.setdefault(port, []).append((t, addr, data))
-                else:
-                    stray.append((t, addr, data))
+            # ---- report: the requests, then the response socket in send order, then the announcer
             n_sent = 0
             for rec in searches:
                 lines.append(f"search {rec['id']} {rec['time']} {addr_tok(rec['addr'])} {tok_str(rec['line'])} "
@@ -451,30 +539,31 @@ def run_recipe(ctx: Ctx, recipe: Dict[str, Any], cid: str) -> Case:
                 else:
                     for lo, hi in rec["rr"]:
                         lines.append(f"rr {lo} {hi}")
-                mine = by_port.get(10000 + rec["id"], [])
-                if rec is searches[-1]:
-                    mine = mine + stray
-                for t, addr, data in mine:
-                    lines.append(f"sent {t} {addr_tok(addr)} {tok_bytes(data)}")
-                    lines.append(hear(loop, data, "search"))
-                    n_sent += 1
-                tags.add("answers:" + ("0" if not mine else "1" if len(mine) == 1 else "2-5" if len(mine) <= 5 else "6+"))
-                tags.add("st:" + st_class(rec["st"], device, bool(mine)))
+                answered = any(st_of(d) == (rec["st"] or "").lower() for _, a, d in sent if a == rec["addr"])
+                tags.add("st:" + st_class(rec["st"], device, answered))
                 tags.add("mx:" + mx_class(rec["mx"]))
                 tags.add("jitter:" + ("none" if not rec["rr"] else "max" if rec["sel"] == "max" else "min" if rec["sel"] == 0 else "mid"))
                 if rec["line"] != M_SEARCH or rec["man"] != DISCOVER:
                     tags.add("not-msearch")
-                if mine and mine[0][0] > rec["time"]:
+                if rec["rr"]:
                     tags.add("delayed-send")
-            if not searches and stray:
-                lines.append("sent-without-search")
+            for t, addr, data in sent:
+                lines.append(f"sent {t} {addr_tok(addr)} {tok_bytes(data)}")
+                lines.append(hear(loop, data, "search"))
+                n_sent += 1
+            tags.add("answers:" + ("0" if not sent else "1-5" if len(sent) <= 5 else "6-20" if len(sent) <= 20 else "21+"))
+            other = [x for x in tr_sent if "announcer" not in ann or x[3] is not ann["announcer"]._transport]
+            if other:
+                lines.append(f"unexpected-transport-send {len(other)}")
             if "start" in ann:
                 stopped = "stop" in ann
                 upto = ann["stop"] if stopped else state["end"]
                 lines.append(f"ann {ann['start']} {upto} {1 if stopped else 0}")
-                n_alive = ann.get("n_alive", len(ann["log"]))
-                for i, (t, addr, data) in enumerate(ann["log"]):
+                alog = [x for x in tr_sent if x[3] is ann["announcer"]._transport]
+                n_alive = 0
+                for t, addr, data, _tr in alog:
                     is_bye = b"ssdp:byebye" in data
+                    n_alive += 0 if is_bye else 1
                     lines.append(f"{'bye' if is_bye else 'alive'} {t} {addr_tok(addr)} {tok_bytes(data)}")
                     lines.append(hear(loop, data, "bye" if is_bye else "alive"))
                     n_sent += 1
@@ -482,7 +571,7 @@ def run_recipe(ctx: Ctx, recipe: Dict[str, Any], cid: str) -> Case:
                 tags.add("alives:" + ("0" if n_alive == 0 else "<cycle" if n_alive < 8 else "cycles"))
             state["n_sent"] = n_sent
         finally:
-            server.time, server.randrange = saved
+            server.time, server.randrange, server.get_ssdp_socket = saved
 
     run_virtual(main)
     return Case(cid, lines, recipe, state.get("n_sent", 0) > 0, sorted(tags))
@@ -578,6 +667,8 @@ def all_targets(rng: random.Random, tree: Dict[str, Any]) -> List[Optional[str]]
 def rand_search(rng: random.Random, st: Optional[str]) -> Dict[str, Any]:
     s: Dict[str, Any] = {"st": st, "mx": rng.choice(MX_VALUES)}
     s["sel"] = rng.choice(["max", "max", 0, 0, rng.randrange(0, 100000)])
+    if rng.random() < 0.75:
+        s["req"] = rng.randrange(0, 3)      # a control point sends several searches from one socket
     safe = all(32 < ord(c) < 127 for c in (st or "x")) and all(32 < ord(c) < 127 for c in (s["mx"] or "x"))
     s["via"] = "datagram" if safe and rng.random() < 0.8 else "direct"
     r = rng.random()
@@ -609,7 +700,8 @@ def tree_cases(rng: random.Random, tree: Dict[str, Any], prefix: str, per_case: 
         if with_ann:
             if not any(o[0] == "astart" for o in ops):
                 ops.insert(rng.randrange(0, len(ops) + 1), ["astart"])
-            ops.append(["advance", rng.choice([0, 29999, 30000, 30001, 250000, rng.randrange(0, 900000)])])
+            ops.append(["advance", rng.choice([0, 29999, 30000, 30001, 250000, rng.randrange(0, 900000),
+                                               rng.choice([250000, 1850000])])])  # sometimes longer than the stated max-age
             if rng.random() < 0.75:
                 ops.append(["astop"])
         recipes.append({"tree": tree, "ops": ops, "tail": rng.choice([0, 0, 31000, 65000]),
@@ -617,7 +709,7 @@ def tree_cases(rng: random.Random, tree: Dict[str, Any], prefix: str, per_case: 
                                             "http://[2001:db8::1]:80"]),
                         "url": rng.choice(["/device.xml", "/", "/desc/root.xml"]),
                         "boot": rng.choice([1, 1, 7, 12345]), "config": rng.choice([1, 1, 2]),
-                        "always_root": rng.random() < 0.15,
+                        "always_root": rng.random() < 0.15, "via_server": rng.random() < 0.15,
                         "custom_headers": {"X-CUSTOM": "1", "SERVER": "other/1.0"} if rng.random() < 0.1 else None})
     return recipes
 
@@ -634,7 +726,7 @@ def generate(ctx: Ctx) -> List[Case]:
     cases: List[Case] = []
     for i, rec in enumerate(CORPUS):
         cases.append(run_recipe(ctx, rec, f"corpus{i}"))
-    n_trees = 3000 if ctx.thorough else 150
+    n_trees = 2400 if ctx.thorough else 150
     recipes: List[Dict[str, Any]] = []
     for ti in range(n_trees):
         tree = rand_tree(ctx.rng)
@@ -709,6 +801,22 @@ CORPUS += [
     {"tree": _t("uuid:hub", "urn:acme-com:device:Hub:1", [[_TEMP, "id:a"], [_TEMP, "id:a"], [_TEMP, "id:a"], [_TEMP, "id:b"]],
                 [_t("uuid:s1", _SENSOR, [_TEMP]), _t("uuid:s1", _SENSOR), _t("uuid:s1", _SENSOR, [_TEMP, _TEMP])]),
      "ops": [["search", {"st": "ssdp:all"}], ["search", {"st": _SENSOR}], ["astart"], ["advance", 100000], ["astop"]]},
+]
+
+
+CORPUS += [
+    # audit C13-1: two searches from the SAME socket, the second while the first (MX 3) answer is pending; then the same
+    # target twice; each must be answered once within its own window
+    {"tree": _ROOT, "ops": [["search", {"st": "upnp:rootdevice", "mx": "3", "sel": 0, "req": 0}],
+                            ["search", {"st": "urn:schemas-upnp-org:service:A:1", "mx": "3", "sel": 0, "req": 0}],
+                            ["advance", 50], ["search", {"st": "upnp:rootdevice", "mx": "3", "sel": 0, "req": 0}],
+                            ["advance", 10000], ["search", {"st": "upnp:rootdevice", "mx": "1", "sel": "max", "req": 0}],
+                            ["search", {"st": "ssdp:all", "req": 0}]]},
+    # audit C13-2: observed for longer than the max-age the server states (1800 s): it must have advertised
+    {"tree": _ROOT, "ops": [["astart"], ["advance", 1850000], ["astop"]]},
+    # audit C13-2: the whole SSDP side started and stopped through UpnpServer._async_start_ssdp / _async_stop_ssdp
+    {"tree": _ROOT, "via_server": True, "ops": [["search", {"st": "ssdp:all", "mx": "2", "sel": 3}], ["advance", 100000], ["astop"]],
+     "tail": 61000},
 ]
 
 
